@@ -130,6 +130,59 @@ def fp_expected(c, cfg):
     return out
 
 
+def sequence_leg(ck):
+    """Several servers in one invocation (-T): every server's host keys are probed and measured for that server - the types an earlier
+    target presented are probed again on the later ones, sizes, CA details and fingerprints are each server's own."""
+    import json
+    from checks import multi
+    shapes = [rating.mk_case(8801, kex=['curve25519-sha256'], key=['ssh-rsa', 'ssh-ed25519'], enc=['aes128-ctr'], mac=['hmac-sha2-256'], hk={'ssh-rsa': (1024, '', 0)}),
+              rating.mk_case(8802, kex=['curve25519-sha256'], key=['rsa-sha2-512', 'ssh-rsa', 'ssh-ed25519'], enc=['aes128-ctr'], mac=['hmac-sha2-256'],
+                             hk={'rsa-sha2-512': (4096, '', 0), 'ssh-rsa': (4096, '', 0)}),
+              rating.mk_case(8803, kex=['curve25519-sha256'], key=['ssh-rsa-cert-v01@openssh.com', 'ssh-rsa', 'ssh-ed25519'], enc=['aes128-ctr'], mac=['hmac-sha2-256'],
+                             hk={'ssh-rsa-cert-v01@openssh.com': (3072, 'ssh-rsa', 1024), 'ssh-rsa': (2048, '', 0)}),
+              rating.mk_case(8804, kex=['curve25519-sha256'], key=['ssh-ed25519'], enc=['aes128-ctr'], mac=['hmac-sha2-256'])]
+    cfgs = [rating.server_cfg(c) for c in shapes]
+    refs = []
+    for cfg in cfgs:
+        rr = runner.run_one(multi.single_scenario(('server', cfg), 0, json_out=True))
+        if rr.get('harness_error') or rr.get('hang') or rr.get('exit') not in (0, 2, 3):
+            raise common.Machinery('single-target reference run failed')
+        d = json.loads(rr['stdout'])
+        refs.append((d.get('key'), d.get('fingerprints')))
+    scs = []
+    for order in ((0, 1), (1, 0), (0, 1, 2), (2, 1, 0), (3, 0, 3, 2), (1, 1), (0, 3, 1)):
+        for threads in (1, 2):
+            sc, labels = multi.scenario([('server', cfgs[i]) for i in order], threads, tuple(range(len(order))) if threads == 1 else None, json_out=True)
+            scs.append((sc, labels, order, threads))
+    for (sc, labels, order, threads), r in zip(scs, runner.run_many([x[0] for x in scs])):
+        ck.evaluated()
+        if r.get('harness_error') or r.get('hang'):
+            raise common.Machinery('target-list run failed: %r' % (r.get('harness_error') or 'hang'))
+        replay = {'order': list(order), 'threads': threads, 'argv': sc['argv'], 'exit': r['exit'], 'stdout': r['stdout'][-3000:]}
+        try:
+            docs = {}
+            for el in json.loads(r['stdout']):
+                docs.setdefault(el['target'], []).append(el)
+        except (ValueError, KeyError, TypeError):
+            ck.violation('sequence-json-unparsable', 'stdout of a -T -j run of healthy servers is not a JSON array of reports', replay)
+            continue
+        bad = False
+        for pos, (lab, i) in enumerate(zip(labels, order)):
+            for el in docs.get(lab, [None]):
+                got = (el or {}).get('key'), (el or {}).get('fingerprints')
+                if got != refs[i]:
+                    what = 'host-key lines (sizes, CA, notes)' if got[0] != refs[i][0] else 'fingerprints'
+                    ck.violation('hostkey sequence %s' % what.split(' ')[0], 'server %d audited as target %d of %r (%d thread(s)): its %s differ from those of its single-target audit'
+                                 % (i, pos + 1, list(order), threads, what), dict(replay, single_target=refs[i], in_list=got))
+                    bad = True
+                    break
+            if bad:
+                break
+        if not bad:
+            ck.cov['traces_validated_against_impl'] += 1
+            ck.nontrivial(('sequence', order, threads))
+
+
 def run(tier):
     ck = common.Check('C11', tier)
     rnd = random.Random(ck.seed)
@@ -230,4 +283,5 @@ def run(tier):
     ck.assumptions += ['RSA sizes are multiples of 16 bits (the tool infers bits from the byte length of the modulus)',
                        'ECDSA CA size is 8 x len(X) as the tool documents (P-521 => 528)',
                        'fingerprint values are compared with hashlib (outside TLA+)']
+    sequence_leg(ck)
     return ck.finish()
